@@ -209,7 +209,14 @@ def rule_prereq(ctx):
     C12.rule_R10(R.Retag(ctx, "C12."))
 
 
+def rule_twins(ctx):
+    """the IPv4 and IPv6 copies of the per-packet functions route sides, roles and lookups identically (shared rule TW)"""
+    from . import _twins as TW
+    TW.twin_agreement(ctx, ctx.program, "TW", ("huginn_net_tcp", "huginn_net_http"))
+
+
 def run(ctx):
+    rule_twins(ctx)
     rule_prereq(ctx)
     rule_R1(ctx)
     rule_R2(ctx)
